@@ -406,8 +406,12 @@ func checkC08(c *Ctx) {
 				c.Count("requests_with_unresolvable_names_on_the_loaded_cache", 1)
 				if rerr == nil {
 					// every loadable Spec injected into OCI specs with nil / populated sections
-					for k := 0; k < 2; k++ {
+					for k := 0; k < 3; k++ {
 						o := genOCI(r)
+						if k > 0 {
+							o = hostileOCI(r)
+							c.Count("injections_into_hostile_oci_specs", 1)
+						}
 						cache.InjectDevices(o, devs...)
 					}
 					for name := range loaded.Devices {
@@ -417,9 +421,11 @@ func checkC08(c *Ctx) {
 						d := loaded.GetDevice(loaded.Devices[i].Name)
 						if d != nil {
 							d.ApplyEdits(genOCI(r))
+							d.ApplyEdits(hostileOCI(r))
 						}
 					}
 					loaded.ApplyEdits(genOCI(r))
+					loaded.ApplyEdits(hostileOCI(r))
 				}
 			})
 			if !ok {
